@@ -69,6 +69,15 @@ namespace Pistache::Tcp
 
     void Transport::flush()
     {
+        // Only the reactor thread may drain the write queue (it is a
+        // single-consumer queue) and touch the per-connection write state. A
+        // flush issued from another thread - a handler answering a stream from
+        // a thread of its own - has already queued its data and woken the
+        // reactor, which writes it in order; draining here as well raced with
+        // it and could end the process ("could not find write data")
+        if (std::this_thread::get_id() != context().thread())
+            return;
+
         handleWriteQueue(true);
     }
 
